@@ -34,13 +34,15 @@ def apply_moves(b, sym, files, step, dirs):
     return moves
 
 
-def scenario(tier, steps, four=False, lean=False):
+def scenario(tier, steps, four=False, lean=False, two_files=False, mixed=False):
 
     def fn(b, sym):
         dirs = ["R", "R/d", "R/d/e"]
         files = {"R/a.txt": 1, "R/d/b.txt": 2, "R/d/e/c.txt": 3}
         if four:
             files["R/b2.txt"] = 4
+        if two_files:
+            del files["R/d/e/c.txt"]
         for f, c in files.items():
             b.mkfile(f, c)
         fmts = sym.choose("formats", [["md5"], ["xxh64", "c4"]]) if not lean else ["md5"]
@@ -48,6 +50,14 @@ def scenario(tier, steps, four=False, lean=False):
         b.require(r.exit == 0, "setup-create", str(r))
         rel = lambda p: posixpath.relpath(p, "R")
         cur = dict(files)
+        if mixed:
+            # a history whose files were first recorded in different formats; rename detection runs with yet another one
+            b.mkfile("R/d/late.txt", 8)
+            b.mkfile("R/late2.txt", 9)
+            cur["R/d/late.txt"], cur["R/late2.txt"] = 8, 9
+            r = b.run("create", root="R", h=["xxh64"])
+            b.require(r.exit == 0, "setup-create", str(r))
+            fmts = sym.choose("dr_formats", [["sha1"], ["xxh64"], ["md5"]])
         for step in range(steps):
             moves = apply_moves(b, sym, cur, step, dirs)
             if not moves and step > 0:
@@ -109,4 +119,11 @@ def harnesses(tier):
                   what="the same with 3 files and a second rename step one generation later (a file renamed again keeps its identity)",
                   bounds={"files": 3, "rename steps": 2, "quick": "format md5, no unrelated files"},
                   outside=out)]
+    hs.append(Harness("c17-three-steps", scenario(tier, 3, lean=True, two_files=True), frontier=6, budget_s=1200,
+                      what="2 files, three consecutive rename generations (a file renamed in every generation keeps its identity)",
+                      bounds={"files": 2, "rename steps": 3}, outside=out))
+    hs.append(Harness("c17-mixed-formats", scenario(tier, 1, lean=True, mixed=True), frontier=6, budget_s=1200,
+                      what="files first recorded in different formats (md5 generation, xxh64 generation), several renamed in one step, "
+                           "create -dr run with a third / second / first format",
+                      bounds={"files": 5, "formats": "md5 then xxh64; -dr with sha1 | xxh64 | md5"}, outside=out))
     return hs
